@@ -191,6 +191,10 @@ def gen_xbnds(ctx):
     return names
 
 
+def generate(ctx):
+    gen_xbnds(ctx)
+
+
 def run(ctx):
     from dassh import mesh_functions as MF
     rng = random.Random(10000 + ctx.seed)
